@@ -18,7 +18,7 @@ HERE = Path(__file__).resolve().parent
 sys.path.insert(0, str(HERE))
 from mutants_seed import M  # noqa: E402
 
-EQUIV = {"m27", "m29", "m31"}
+EQUIV = {"m27", "m29", "m30", "m31"}  # m30: R == 1 implies r == 0, so the edit changes nothing
 
 
 def run(mid, prop, file, old, new, tier, patch=None):
